@@ -929,8 +929,9 @@ func main() {
 			return snapGuards(repo) + effectOrder(repo, "stores/basestore/utils.go", "SaveSnapshot", "saveSnapshotOrder", [][2]string{
 				{"heads", "oplog.Heads()"}, {"len", "oplog.Len()"}, {"entries", "oplog.GetEntries()"}}) +
 				effectOrder(repo, bs, "LoadFromSnapshot", "loadSnapshotOrder", [][2]string{
-					{"rebuild", "ipfslog.NewFromJSON("}, {"count", "log.GetEntries()"}, {"max", "b.recalculateReplicationMax("},
-					{"join", "b.OpLog().Join("}, {"index", "b.updateIndex("}, {"status", "b.recalculateReplicationStatus("}})
+					{"rebuild", "ipfslog.NewFromJSON("}, {"ownlog", "e.GetLogID() != oplog.GetID()"}, {"canappend", "CanAppend(e, provider"},
+					{"verify", "e.Verify(provider"}, {"count", "maxClock < t"}, {"max", "b.recalculateReplicationMax("},
+					{"join", "oplog.Join(log, -1)"}, {"index", "b.updateIndex("}, {"status", "b.recalculateReplicationStatus("}})
 		}},
 		{"GenListener", func() string {
 			return listenerExits(repo, [][2]string{{"baseorbitdb/orbitdb.go", "monitorDirectChannel"}, {bs, "pubSubChanListener"}})
